@@ -10,7 +10,7 @@ from props.C06 import describe, rules
 
 REQUIRED_THEOREMS = ['Usid.C19.sidpy_coords', 'Usid.C19.image_pixels', 'Usid.C19.array_rejected_before_file',
                      'Usid.C19.array_valid_iff', 'Usid.C19.array_layout', 'Usid.C19.unfixed_reshape_counterexample']
-RULE = ('[also: images as comma-separated text, colour png, tif, bmp; resampling filters NEAREST / BILINEAR / BOX; the recorded binning, filter, image_min / image_max observed] [also: an extra dataset holding an integer that single precision cannot represent, element kinds of the stored extras observed] [also: dimension / axis values that are not increasing, lazy inputs in several chunks, dtype= / compression= keyword arguments, verbose=True] three families. ARRAY: generator datasets through ArrayTranslator as numpy or dask arrays, dimension lists given '
+RULE = ('[also: labelled datasets one of whose axes was re-assigned by attribute (internal axis dictionary out of order)] [also: images as comma-separated text, colour png, tif, bmp; resampling filters NEAREST / BILINEAR / BOX; the recorded binning, filter, image_min / image_max observed] [also: an extra dataset holding an integer that single precision cannot represent, element kinds of the stored extras observed] [also: dimension / axis values that are not increasing, lazy inputs in several chunks, dtype= / compression= keyword arguments, verbose=True] three families. ARRAY: generator datasets through ArrayTranslator as numpy or dask arrays, dimension lists given '
         'fastest first (or a bare Dimension), with/without parameter dictionaries and extra datasets (lists, arrays, '
         'dask arrays), a pre-existing file at the output path or none, and one (sometimes two) invalidities out of: '
         'non-string argument, data that is not an array / not 2D, dimension lists of the wrong type or whose sizes do not '
@@ -109,6 +109,9 @@ def generate(seed, tier):
             cases.append(c)
     for i in range(n[2]):
         cases.append(_gen_sidpy(derived_rng(seed, 'C19s', i), i))
+        rr = derived_rng(seed, 'C19sr', i)
+        if rr.random() < 0.3:
+            cases[-1]['reassign'] = rr.randrange(len(cases[-1]['types']))
     # every spatial/other assignment of rank <= 3 (quick) / every typing of rank <= 3 (thorough)
     pool = ['spatial', 'spectral'] if tier == 'quick' else TYPES
     j = 0
@@ -478,6 +481,14 @@ def _run_sidpy(inp, work):
     for i, t in enumerate(inp['types']):
         ds.set_dimension(i, sidpy.Dimension(np.array(inp['values'][i]) / 4.0, name='ax%d' % i, units='u%d' % i,
                                             quantity='q%d' % i, dimension_type=t))
+    # an axis recalibrated by attribute assignment (sidpy then moves its entry to the END of its internal dictionary)
+    if inp.get('reassign') is not None and inp['reassign'] < len(inp['types']):
+        i = inp['reassign']
+        try:
+            setattr(ds, 'ax%d' % i, sidpy.Dimension(np.array(inp['values'][i]) / 4.0, name='ax%d' % i, units='u%d' % i,
+                                                    quantity='q%d' % i, dimension_type=inp['types'][i]))
+        except Exception:     # noqa  (a sidpy that refuses the assignment leaves the dataset as it was)
+            pass
     out = {}
     with h5py.File(os.path.join(work, 's.h5'), 'w') as f:
         g = f.create_group('G') if inp['dest'] == 'group' else f
@@ -548,7 +559,15 @@ def model_requests_obs(inp, obs):
         axes = [{'name': 'ax%d' % i, 'units': 'u%d' % i, 'values': inp['values'][i], 'spatial': t == 'spatial'}
                 for i, t in enumerate(inp['types'])]
         n = int(np.prod(inp['shape']))
-        return [{'op': 'trans.sidpy', 'shape': inp['shape'], 'flat': list(range(n)), 'axes': axes, 'unfixed': False}]
+        shape, flat = list(inp['shape']), list(range(n))
+        if inp.get('reassign') is not None and inp['reassign'] < len(axes) and len(axes) > 1:
+            # the writer walks the axes in the order of sidpy's internal dictionary, in which the re-assigned axis now
+            # comes last: the model is handed the same labelled array with its axes in that order
+            order = [j for j in range(len(axes)) if j != inp['reassign']] + [inp['reassign']]
+            flat = np.arange(n).reshape(shape).transpose(order).ravel().tolist()
+            shape = [shape[j] for j in order]
+            axes = [axes[j] for j in order]
+        return [{'op': 'trans.sidpy', 'shape': shape, 'flat': flat, 'axes': axes, 'unfixed': False}]
     if inp['kind'] == 'image':
         if inp['bin'] is not None or inp['normalize'] or 'err' in obs or inp['preexisting']:
             return []
